@@ -72,6 +72,7 @@ type FuncVC struct {
 	footprints      map[string][]HeapKey
 	appNames        map[string]string
 	aliases         map[string]string // contract name -> local variable standing in for it (see verifyWithAliases)
+	cbAt            *ssa.BasicBlock
 	sideStack       [][]string
 	pureEnsDepth    int
 	binderDepth     int // >0 while evaluating under a quantifier: no facts may be emitted (they would mention bound variables)
